@@ -17,9 +17,9 @@ import PV.Gen.C11Tables
   1. `gen_parenTable_eq`      real unparser's parenthesisation decisions = the model's, all 1831 admissible pairs
   2. `unparse_shape`          for EVERY expression the model parenthesises exactly by `level > kindPrec`
      `unparse_slot_levels`    … and renders every child at the `slotLevel` of its slot
-  3. `prec_table_ok`          wherever the grammar needs parentheses the model writes them, except six pairs
+  3. `prec_table_ok`          wherever the grammar needs parentheses the model writes them — no exception
      `prec_table_exact`       … and the model's decision is exactly: needed, or one of five harmless families
-     `dict_unpack_defect`     the six pairs: needed, not written
+     `dict_unpack_regression` the six dict-`**` pairs that were wrong before /repo dc8e40d
   4. `parse_unparse_partial`  round trip for every expression of `InFragment` (operators, trailers, displays,
                               literals, await / yield), `unparse_fixpoint`
   5. `parse_unparse_fails`    the full statement is false for the code as it is; witnesses for the findings
@@ -131,9 +131,9 @@ theorem unparse_slot_levels (p : Nat → Bool) :
 
 /-! ## 3. model decision vs grammar requirement, over all (slot, kind) pairs -/
 
-/-- the kinds the grammar cannot derive after `**` in a dict display without parentheses, but which the
-    unparser writes bare there -/
-def dictUnpackDefects : List Kind :=
+/-- the kinds the grammar cannot derive after `**` in a dict display without parentheses; before /repo
+    dc8e40d the unparser wrote them bare there (`{**a or b}`) -/
+def dictUnpackLowKinds : List Kind :=
   [.lambda, .ifExp, .boolOp .and, .boolOp .or, .unary .not, .compare]
 
 /-- harmless extra parentheses the unparser writes although the grammar would not need them -/
@@ -151,44 +151,38 @@ def overParen (s : Slot) (k : Kind) : Bool :=
 
 def tableOkB : Bool :=
   allSlots.all fun s => allKinds.all fun k =>
-    !(admissible s k && needsParens s k) || modelParens s k ||
-      (s == .dictUnpack && dictUnpackDefects.contains k)
+    !(admissible s k && needsParens s k) || modelParens s k
 
 def tableExactB : Bool :=
   allSlots.all fun s => allKinds.all fun k =>
-    !admissible s k ||
-      (modelParens s k ==
-        ((needsParens s k || overParen s k) && !(s == .dictUnpack && dictUnpackDefects.contains k)))
+    !admissible s k || (modelParens s k == (needsParens s k || overParen s k))
 
 theorem tableOkB_true : tableOkB = true := by decide +kernel
 theorem tableExactB_true : tableExactB = true := by decide +kernel
 
-/-- Soundness of the parenthesisation: for every child position `s` and every kind of child `k` that can
-    stand there, if the grammar cannot derive the child bare, the unparser parenthesises it —
-    except for the six `dictUnpack` pairs. -/
+/-- **Soundness of the parenthesisation, all 1831 pairs, no exception**: for every child position `s` and
+    every kind of child `k` that can stand there, if the grammar cannot derive the child bare, the unparser
+    parenthesises it. -/
 theorem prec_table_ok (s : Slot) (k : Kind) (ha : admissible s k = true) (hn : needsParens s k = true) :
-    modelParens s k = true ∨ (s = .dictUnpack ∧ k ∈ dictUnpackDefects) := by
+    modelParens s k = true := by
   have h := tableOkB_true
   simp only [tableOkB, List.all_eq_true] at h
   have := h s (allSlots_complete s) k (allKinds_complete k)
-  simp only [ha, hn, Bool.and_self, Bool.not_true, Bool.false_or, Bool.or_eq_true, Bool.and_eq_true,
-    beq_iff_eq, List.contains_iff_mem] at this
-  exact this
+  simpa [ha, hn] using this
 
 /-- The complete table: the unparser parenthesises exactly when the grammar needs it or in one of the five
-    harmless `overParen` families — and never in the six defect pairs. -/
+    harmless `overParen` families. -/
 theorem prec_table_exact (s : Slot) (k : Kind) (ha : admissible s k = true) :
-    modelParens s k =
-      ((needsParens s k || overParen s k) && !(s == .dictUnpack && dictUnpackDefects.contains k)) := by
+    modelParens s k = (needsParens s k || overParen s k) := by
   have h := tableExactB_true
   simp only [tableExactB, List.all_eq_true] at h
   have := h s (allSlots_complete s) k (allKinds_complete k)
   simpa [ha] using this
 
-/-- The defect, as a statement about the tables: after `**` in a dict display the grammar needs
-    parentheses around these six kinds and the unparser writes none. -/
-theorem dict_unpack_defect : ∀ k ∈ dictUnpackDefects,
-    admissible .dictUnpack k = true ∧ needsParens .dictUnpack k = true ∧ modelParens .dictUnpack k = false := by
+/-- Regression for the former finding `{**(a or b)}` → `{**a or b}` (fixed in /repo by dc8e40d): after `**`
+    in a dict display the grammar needs parentheses around these six kinds, and the unparser writes them. -/
+theorem dict_unpack_regression : ∀ k ∈ dictUnpackLowKinds,
+    admissible .dictUnpack k = true ∧ needsParens .dictUnpack k = true ∧ modelParens .dictUnpack k = true := by
   decide
 
 example : needsParens (.binLeft .pow) (.unary .uSub) = true ∧ modelParens (.binLeft .pow) (.unary .uSub) = true := by
@@ -270,7 +264,9 @@ theorem inFrag_wf_aux : (e : Expr) → inFrag e = true → ∀ pos, wf pos e = t
   | .slice .., h, _ => by simp [inFrag] at h
 theorem inFragItems_wf_aux : (is : List DictItem) → inFragItems is = true → wfItems is = true
   | [], _ => by simp [wfItems]
-  | .mk none v :: is, h => by simp [inFragItems] at h
+  | .mk none v :: is, h => by
+    simp [inFragItems] at h
+    simp [wfItems, wfOpt, inFrag_wf_aux v h.1, inFragItems_wf_aux is h.2]
   | .mk (some k) v :: is, h => by
     simp [inFragItems] at h
     simp [wfItems, wfOpt, inFrag_wf_aux k h.1.1, inFrag_wf_aux v h.1.2, inFragItems_wf_aux is h.2]
@@ -295,42 +291,21 @@ theorem unparse_fixpoint (p : Nat → Bool) (e : Expr) (h : InFragment e) :
 
 /-! ## 5. where the unchanged code is wrong -/
 
-/-- `{**(a or b)}` -/
+/-- `{**(a or b)}` — the former finding, now inside `InFragment` -/
 def dictWitness : Expr := .dict [.mk none (.boolOp .or [.name [97], .name [98]])]
 
-/-- `{`, `**`, `a`, `or`, `b`, `}` -/
+/-- `{`, `**`, `(`, `a`, `or`, `b`, `)`, `}` -/
 def dictWitnessToks : List Tok :=
-  [.op .lbrace, .op .dstar, .name [97], .kw .or, .name [98], .op .rbrace]
+  [.op .lbrace, .op .dstar, .op .lpar, .name [97], .kw .or, .name [98], .op .rpar, .op .rbrace]
 
-theorem dictWitness_toks (p : Nat → Bool) : toks (display p dictWitness) = dictWitnessToks := by
+/-- Regression: the repaired unparser renders `{**(a or b)}` with its parentheses, and the tree is in the
+    proved fragment (so `parse_unparse_partial` applies to it). -/
+theorem dict_unpack_roundtrip (p : Nat → Bool) :
+    toks (display p dictWitness) = dictWitnessToks ∧ InFragment dictWitness ∧
+      parseRef 64 dictWitnessToks = some (dictWitness, []) := by
+  refine ⟨?_, by decide, by rfl⟩
   simp [display, dictWitness, dictWitnessToks, unparse, unparseDictItems, unparseBool, toks, groupIf,
-    delim, boolOpPrec, boolOpKw, Prec.TEST, Prec.OR, op, kw]
-
-theorem dictWitness_small : ∀ fuel, fuel < 40 → parseRef fuel dictWitnessToks = none := by decide +kernel
-
-theorem dictWitness_large (f : Nat) : parseRef (f + 40) dictWitnessToks = none := by
-  simp [parseRef, dictWitnessToks, parseTest, parseOrTest, parseAndTest, parseNotTest, parseCmp, parseBin,
-    parseBinLoop, parseFactor, parsePower, parseAtomExpr, parseAtomExpr2, parseAtom, parseBraceAtom, parseTrailers,
-    parseDictRest, binOpAt, unaryOpAt]
-
-/-- Witness 1: the tree of `{**(a or b)}` is well-formed, the model renders it as `{**a or b}`, and no
-    fuel makes the reference parser accept that. -/
-theorem dict_unpack_witness (p : Nat → Bool) :
-    WF dictWitness ∧ ∀ fuel, parseRef fuel (toks (display p dictWitness)) = none := by
-  refine ⟨by decide, fun fuel => ?_⟩
-  rw [dictWitness_toks]
-  by_cases h : fuel < 40
-  · exact dictWitness_small fuel h
-  · obtain ⟨f, rfl⟩ : ∃ f, fuel = f + 40 := ⟨fuel - 40, by omega⟩
-    exact dictWitness_large f
-
-/-- The full statement does not hold for the unparser as it is. -/
-theorem parse_unparse_fails : ¬ parse_unparse_full := by
-  intro h
-  obtain ⟨n, hn⟩ := h (fun _ => true) dictWitness (dict_unpack_witness (fun _ => true)).1
-  have := hn n (Nat.le_refl _)
-  rw [(dict_unpack_witness (fun _ => true)).2 n] at this
-  cases this
+    delim, boolOpPrec, boolOpKw, Prec.TEST, Prec.OR, Prec.EXPR, Prec.BOR, op, kw]
 
 /-- Regression (text level, shared with C17): the constant `0.9999999999999999` (bits `3fefffffffffffff`,
     `1 - 2^-53`) used to be rendered `1.0` (`is_integer` compared with `EPSILON`; fixed in /repo by 5be0365);
@@ -382,12 +357,20 @@ theorem fstrWitness_none : ∀ fuel, parseRef fuel [fstrWitnessTok] = none := by
   exact parseTest_none_of_atom_none hAtom (by simp [fstrWitnessTok]) (by simp [fstrWitnessTok])
     (by simp [fstrWitnessTok]) (by simp [fstrWitnessTok, unaryOpAt])
 
-/-- Witness 3: the tree of `f'''{d['a']}"'''` is well-formed; the model escapes the whole body, putting
+/-- Witness: the tree of `f'''{d['a']}"'''` is well-formed; the model escapes the whole body, putting
     backslashes inside the replacement field; no fuel makes the reference parser accept the result. -/
 theorem fstring_witness (p : Nat → Bool) :
     WF fstrWitness ∧ ∀ fuel, parseRef fuel (toks (display p fstrWitness)) = none := by
   refine ⟨by decide, fun fuel => ?_⟩
   rw [fstrWitness_toks]
   exact fstrWitness_none fuel
+
+/-- The full statement does not hold for the unparser as it is. -/
+theorem parse_unparse_fails : ¬ parse_unparse_full := by
+  intro h
+  obtain ⟨n, hn⟩ := h (fun _ => true) fstrWitness (fstring_witness (fun _ => true)).1
+  have := hn n (Nat.le_refl _)
+  rw [(fstring_witness (fun _ => true)).2 n] at this
+  cases this
 
 end PV.C11
